@@ -1020,7 +1020,12 @@ func (v *Verifier) havocItem(s *State, pre *State, env *CEnv, a *CExpr) {
 	case a.Kind == "un" && a.Op == "*":
 		a = a.X
 	}
-	if a.Kind == "sel" {
+	isContents := false
+	if a.Kind == "call" && a.X.Kind == "ident" && a.X.Name == "contents" && len(a.Args) == 1 {
+		a = a.Args[0]
+		isContents = true
+	}
+	if a.Kind == "sel" && !isContents {
 		// p.f
 		base := e.tr(a.X)
 		st, _ := derefType(base.Ty)
